@@ -229,6 +229,6 @@ func scopesC05(thorough bool) []Scope {
 }
 
 func init() {
-	register(&Prop{ID: "C05", Scopes: scopesC05, Judge: judgeC05,
+	register(&Prop{ID: "C05", PinnedFrom: []string{"C01"}, Scopes: scopesC05, Judge: judgeC05,
 		Rule: "valid lattice polygons plus every vertex sequence (repeats allowed, 1-3 rings) of the invalid scopes, each run under all four (keep, reverse) combinations; structural invariants per returned ring plus the keep/no-keep differential; non-trivial input = the reference router inserts a vertex or visits a centre twice"})
 }
